@@ -9,7 +9,8 @@
     the tasks pending in the queue (the queue is emptied before the command, so what is pending was queued
     by it); after a start the pending tasks; after a publication the pending tasks. *)
 From Coq Require Import String.
-From KV Require Import base.Tac queue.Queue queue.QueueSpec gen.GenQueue.
+From KV Require Import base.Tac queue.FollowSpec.
+Open Scope N_scope.
 Open Scope string_scope.
 
 (** A queued task as observed: kind (the Task constructor), CA, parent (0 where the task has none). *)
